@@ -105,6 +105,7 @@ def case_strategy(draw, tier="quick"):
             "api": draw(st.sampled_from(["writeline", "writelines", "with", "tuple", "strings", "chunks", "chunks"])),
             "chunks": draw(st.lists(st.sampled_from([0, 1, 1, 2, 3, 7]), min_size=1, max_size=6)),
             "reassign": draw(st.sampled_from([None, None, None, "triclinic-first", "vector-first"])),
+            "early_close": draw(st.one_of(st.none(), st.none(), st.none(), st.integers(0, 1000))),
             "read_api": draw(st.sampled_from(["path", "path", "fileobj", "open_coordinate_file", "iterate"])),
             "prior": draw(st.one_of(st.none(), st.fixed_dictionaries({
                 "format": st.sampled_from([None, 1, 2, 4, 6]), "vel": st.booleans(), "n": st.integers(1, 40),
@@ -129,7 +130,22 @@ def write_with_library(case, path):
             f.position_format = (case["format"] + 5, case["format"])
         if case["declare"]:
             f.natoms = len(recs)
-        if case["api"] == "strings":
+        if case.get("early_close") and case["declare"] and len(recs) >= 2:
+            # error-then-continue on one writer: close() is called before the declared number of records is there (it
+            # refuses), the caller catches that, writes the rest and closes again
+            k = 1 + case["early_close"] % (len(recs) - 1)
+            for r in recs[:k]:
+                f.writeline(list(r))
+            try:
+                f.close()
+            except Exception:      # noqa: BLE001
+                pass
+            else:
+                raise PropertyViolation("close-count-mismatch", "close() accepted %d records for a declared count of %d"
+                                        % (k, len(recs)))
+            for r in recs[k:]:
+                f.writeline(list(r))
+        elif case["api"] == "strings":
             # pre-formatted lines ("if it is a string, it will be written directly")
             d = 3 if case["format"] is None else case["format"]
             fd = {"position": (d + 5, d), "velocities": case["vel"]}
